@@ -1054,6 +1054,8 @@ class Interp:
         parts = path.split(".")
         cur = env.get(parts[0])
         for p in parts[1:]:
+            if isinstance(cur, OptVal):
+                cur = cur.value            # an optional object: look inside
             if isinstance(cur, Obj):
                 cur = cur.attrs.get(p)
             else:
